@@ -646,7 +646,11 @@ fn part_histories(ctx: &mut Ctx, rng: &mut Rng, idx: &mut usize) {
             if r.chance(50) {
                 let cap: usize = match cfg.kind_name.as_str() { n if n.starts_with("a2") && n.contains("13") => 100_000, n if n.starts_with("a2") => 110_000, _ => 120_000 };
                 let soil = fname(cfg.fs, 900);
-                let mut pre = vec![Op::Put(soil.clone(), cap, 0x5011 ^ me as u64), Op::Delete(soil)];
+                // 13-sector DOS disks: a second file takes what is left, so that the history has to re-use freed sectors
+                let soil2 = fname(cfg.fs, 901);
+                let mut pre = if cfg.kind_name.contains("13") {
+                    vec![Op::Put(soil.clone(), 72_000, 0x5011 ^ me as u64), Op::Put(soil2.clone(), 30_000, 0x5012 ^ me as u64), Op::Delete(soil), Op::Delete(soil2)]
+                } else { vec![Op::Put(soil.clone(), cap, 0x5011 ^ me as u64), Op::Delete(soil)] };
                 pre.append(&mut ops);
                 ops = pre;
                 ctx.out.count("hist:pre-soil");
